@@ -121,7 +121,9 @@ def run(run, binfo):
     world.register_custom()
     targets = [{}, {'name': 'n'}, {'name': 'n', 'nested': {'a': [1, {'b': None}], 'c': 2.5}},
                {'name': 'n', 'obj': object(), 'other': [1, 2]}, {'name': 'n', 'o1': object(), 'o2': object(), 'k': 'v'}]
-    credss = [{}, {'roles': ['a', 'b'], 'user_id': 'u'}, {'roles': [], 'nested': {'x': [1, 2]}}]
+    credss = [{}, {'roles': ['a', 'b'], 'user_id': 'u'}, {'roles': [], 'nested': {'x': [1, 2]}},
+              # credentials that happen to carry the key the URL reads from the TARGET
+              {'roles': ['a'], 'name': 'from-credentials', 'nested': 'c'}]
     preqs, pinfo = [], []
     for t, cr, form, depth in itertools.product(targets, credss, (True, False), (0, 1, 2)):
         text = 'http://host/path/%(name)s' if 'name' in t else 'http://host/path'
@@ -170,6 +172,33 @@ def run(run, binfo):
                            'input': {'target': repr(t), 'creds': cr, 'form': form}, 'expected': want, 'observed': sent})
         run.nontrivial.add(('payload', repr(t), repr(cr), form, name))
     run.count('payload_cases', len(pinfo))
+    # opaque objects below the top level: whatever the check does with them (the unchanged code cannot serialise them),
+    # the caller's target -- every container in it, by identity and content -- is as it was
+    def shape(v):
+        if isinstance(v, dict):
+            return ('d', id(v), tuple((k, shape(x)) for k, x in v.items()))
+        if isinstance(v, list):
+            return ('l', id(v), tuple(shape(x) for x in v))
+        return ('v', id(v))
+    for form in (True, False):
+        for mk in (lambda: {'name': 'n', 'nested': {'o': object(), 'k': 'v'}},
+                   lambda: {'name': 'n', 'lst': [object(), {'o': object()}]},
+                   lambda: {'name': 'n', 'deep': {'a': {'b': [1, {'c': object()}]}}, 'top': object()}):
+            t = mk()
+            before = shape(t)
+            e = make_enforcer(form)
+            e.set_rules(policy.Rules.from_dict({'the:policy': 'http://host/path/%(name)s'}), use_conf=False)
+            world.install_http_stub(('reply', 'True'))
+            try:
+                e.enforce('the:policy', t, {'roles': []})
+            except Exception:   # noqa
+                pass
+            run.evaluations += 1
+            if shape(t) != before:
+                run.violation('target-modified', 'the caller\'s target (opaque objects below the top level) was modified '
+                              'by the remote check',
+                              {'kind': 'failing-input', 'suite': 'spec-c16-payload',
+                               'input': {'target': repr(t), 'form': form}, 'expected': 'unmodified', 'observed': repr(t)})
     # ---- TLS file pre-checks (https)
     tls_rows = tls_table(run)
     run.count('tls_rows', tls_rows)
